@@ -36,6 +36,10 @@ claimed = {
    text="Bounded exhaustive model checking: ~80 program shapes (every array/object built-in and node type that handles containers, chains, partials, lambdas) x 10 operands, alone and composed to depth 2, on 64 freshly built documents (nulls, empty containers, duplicates, nested arrays, two slices over one backing array, one map reachable through two members, array at the top) each with a registered variable that is separate from / part of the document: after every evaluation, successful or failing, the caller's document and the variable must be deep-equal to their snapshots. Transforms: the full product 9 patterns x 9 updates x 8 deletes x 5 application forms x all documents compared with a reference transform (deep copy, update exactly the selected objects, delete names, error classes), plus patterns that escape the copy ($$, variables) under the frame condition.",
    note="Trusted: reflect.DeepEqual against an independent deep copy taken before Eval; the reference transform (mc/ref/ext2.go). Struct-typed inputs and documents deeper than the generated ones are not covered; an in-place write beyond a slice's visible length is seen only through the aliased view the generator provides.",
    technique="explicit enumeration of bounded programs x documents (stateless DFS) with frame-condition oracle and reference transform", design="§5 C07", engine=E1),
+ "C10": dict(
+   text="Bounded exhaustive model checking: every built-in x arity 0..2 (thorough: 3) x the 27-value type-chaotic alphabet, ~100 node shapes x value tuples, every corpus program in 10 result positions (bare, in an array, in an object, through a lambda, through $map, indexed, chained) on 4 documents, 26 numeric shapes x all pairs of 16 edge numbers (overflowing powers, sums, products) - each checked by a type walk of the returned Go value (only JSON kinds and function values, finite numbers), json.Marshal, ErrUndefined shape, and a differential oracle EvalBytes(encode(input)) vs Eval(decode(encode(input))); EvalBytes input validation on all byte strings of length <=3 (thorough: 4) over 18 bytes and on 11 documents x 16 prefixes x 16 suffixes x truncations.",
+   note="Trusted: encoding/json as the definition of valid JSON input and of the encoding. Results whose order follows Go map iteration are compared as multisets. That ErrUndefined is reported exactly for 'no value' is decided against the reference model in C01-C03, C12-C15; here only totality of the mapping and its shape.",
+   technique="explicit enumeration of bounded programs and input byte strings (stateless DFS) with type-walk and Eval/EvalBytes differential oracles", design="§5 C10", engine=E1),
 }
 pending_reason = "check not built yet in this session (planned, see DESIGN.md §5)"
 
